@@ -1,0 +1,19 @@
+//go:build verif
+
+// Contracts for package term, read by /verif/bin/gvc (contract-based deductive verification).
+// This file contains comments only; it is compiled only under the build tag "verif".
+package term
+
+// ---- C13: "no terminal is available" is what the operating system says about the two standard streams (isatty on
+// the descriptors of stdin and stdout), not a property of the file mode: /dev/null, a serial line or a printer are
+// character devices and no terminals - a prompt there can never be answered and must end with the no-terminal
+// refusal (205), not with an attempt to read an answer
+//@ ghost var inTTY bool scratch
+//@ ghost var outTTY bool scratch
+//@ func IsTerminal
+//@   init inTTY := false
+//@   init outTTY := false
+//@   site term.IsTerminal#1 ghost inTTY := result
+//@   site term.IsTerminal#2 ghost outTTY := result
+//@   ensures result == (inTTY && outTTY)                                                                      [C13,C20]
+//@   nosite (*File).Stat                                                                                      [C13,C20]
